@@ -25,6 +25,27 @@ pub struct Case {
     /// internal: 1 = "only return the dump" (request sent to the worker processes)
     #[serde(default)]
     pub mode: u8,
+    /// number of EXTRA library workspaces (`lib2`, `lib3`, ...) each holding one file whose globals are inferred
+    /// from the previous library's globals (cross-library chains; analysis order of libraries must not be hash order)
+    #[serde(default)]
+    pub libs: u8,
+}
+
+fn lib_chain_files(n: u8) -> Vec<wsgen::WsFile> {
+    let mut out = vec![];
+    for k in 0..n {
+        let dir = format!("lib{}", k + 2);
+        let text = if k == 0 {
+            "local function mk() return { v = 1 } end\nL0 = mk()\nfunction lf0(x) return L0 end\n".to_string()
+        } else {
+            format!("L{k} = L{}\nM{k} = lf{}(1)\nfunction lf{k}(x) return M{k} end\n", k - 1, k - 1)
+        };
+        out.push(wsgen::WsFile { name: format!("{dir}/x{k}.lua"), text });
+    }
+    if n > 0 {
+        out.push(wsgen::WsFile { name: "uses_libs.lua".into(), text: format!("local q = L{}\nlocal r = M{}\n---@type string\nlocal s = L{}\n", n - 1, (n - 1).max(1), n - 1) });
+    }
+    out
 }
 
 pub struct C11;
@@ -36,10 +57,15 @@ pub struct Local {
 
 fn analyse(c: &Case) -> Dump {
     let mut a = hist::new_analysis(&c.cfg, &c.setup);
+    let mut files = c.ws.files.clone();
+    for k in 0..c.libs {
+        a.add_library_workspace(&emmylua_code_analysis::WorkspaceFolder::new(hist::base().join(format!("lib{}", k + 2)), true));
+    }
+    files.extend(lib_chain_files(c.libs));
     if c.by_path {
-        a.update_files_by_path(c.ws.files.iter().map(|f| (hist::base().join(&f.name), Some(f.text.clone()))).collect());
+        a.update_files_by_path(files.iter().map(|f| (hist::base().join(&f.name), Some(f.text.clone()))).collect());
     } else {
-        hist::load_batch(&mut a, &c.ws.files);
+        hist::load_batch(&mut a, &files);
     }
     if c.reindex {
         a.reindex();
@@ -84,8 +110,8 @@ impl Property for C11 {
         tier.pick(3000, 100_000)
     }
     fn strategy(&self, tier: Tier) -> BoxedStrategy<Case> {
-        (wsgen::workspace(2, tier.pick(6, 8), tier.pick(5, 8)), hist::setup_strategy(), prop_oneof![4 => Just(Cfg::base()), 1 => hist::cfg_strategy()], any::<bool>(), prop_oneof![3 => Just(false), 1 => Just(true)])
-            .prop_map(|(ws, setup, cfg, by_path, reindex)| Case { ws, setup, cfg, by_path, reindex, mode: 0 })
+        (wsgen::workspace(2, tier.pick(6, 8), tier.pick(5, 8)), hist::setup_strategy(), prop_oneof![4 => Just(Cfg::base()), 1 => hist::cfg_strategy()], any::<bool>(), prop_oneof![3 => Just(false), 1 => Just(true)], prop_oneof![3 => Just(0u8), 1 => Just(2u8), 1 => Just(3u8), 1 => Just(5u8)])
+            .prop_map(|(ws, setup, cfg, by_path, reindex, libs)| Case { ws, setup, cfg, by_path, reindex, mode: 0, libs })
             .boxed()
     }
     fn simplify(&self, c: &Case) -> Vec<Case> {
